@@ -173,7 +173,8 @@ Section Tok.
     do sg <- nsig cs h n;
     let st' := n :: st in
     do t <- (match sg_task sg with
-             | Some t => do r <- tokv fuel st' (VRef t); Ok (Some (fst r), snd r)
+             | Some t => do r <- tokv fuel st' (VRef t);
+                         Ok (match index_of t st' with Some _ => None | None => Some (fst r) end, snd r)
              | None => Ok (None, O)
              end);
     do a <- tok_args (tokv fuel st') ty (sg_args sg);
